@@ -2400,19 +2400,17 @@ func (c *ChannelStateDB) AdvanceCommitChainTail(channel *OpenChannel,
 
 		// Persist the unsigned acked updates that are not included
 		// in their new commitment.
+		// The key is absent until the first local revocation (or for
+		// nodes that are upgrading), which is equivalent to an empty
+		// list.
+		var unsignedUpdates []LogUpdate
 		updateBytes := chanBucket.Get(unsignedAckedUpdatesKey)
-		if updateBytes == nil {
-			// This shouldn't normally happen as we always store
-			// the number of updates, but could still be
-			// encountered by nodes that are upgrading.
-			newRemoteCommit = &newCommit.Commitment
-			return nil
-		}
-
-		r := bytes.NewReader(updateBytes)
-		unsignedUpdates, err := deserializeLogUpdates(r)
-		if err != nil {
-			return err
+		if updateBytes != nil {
+			r := bytes.NewReader(updateBytes)
+			unsignedUpdates, err = deserializeLogUpdates(r)
+			if err != nil {
+				return err
+			}
 		}
 
 		var validUpdates []LogUpdate
